@@ -279,10 +279,16 @@ def rule_agree(ctx):
                 res.instance("%s : records %s%s" % (key, x[0], list(x[1])))
             for x in b:
                 res.instance("%s : targets %s%s" % (key, x[0], list(x[1])))
-            if a and a == b:
+            # the two containers must undergo the same selections; the order in which the statements are written
+            # (records first, then targets, or interleaved) carries no meaning, so the comparison is on multisets
+            sa, sb = sorted(a, key=repr), sorted(b, key=repr)
+            if a and sa == sb:
                 res.ok()
                 res.sample({"fn": key, "selection ops on both containers": [x[0] for x in a]})
+            elif not a and not b:
+                res.undecided("%s : selection-ops" % key, "no selection operations on the records / targets containers recognised", fn_loc(fn))
             else:
+                a, b = sa, sb
                 # find first difference
                 diff = next((i for i in range(min(len(a), len(b))) if a[i] != b[i]), min(len(a), len(b)))
                 res.violate("%s : selection-mismatch" % key,
